@@ -32,10 +32,17 @@ pub struct C31;
 
 const TAG: u64 = 1 << 63;
 
-pub const SHARED_SCHEMA: &str = r#"
+// Besides "\n" the text uses the other line terminators and separators that line/column lookups
+// have to agree on whichever code path computes them: a lone carriage return (a GraphQL line
+// terminator), U+2028 inside a description, a form feed inside a comment.
+pub const SHARED_SCHEMA: &str = concat!(
+    r#"
 schema { query: Query mutation: Mutation }
 directive @tag(name: String!) repeatable on OBJECT | FIELD_DEFINITION | INTERFACE
-scalar Date
+"#,
+    "\"a date\u{2028}second line of the description\"\r",
+    "# comment with a form feed \u{c} in it\r",
+    r#"scalar Date
 enum Color { RED GREEN BLUE }
 input Filter { color: Color = RED, after: Date, tags: [String!] }
 interface Node { id: ID! }
@@ -46,7 +53,8 @@ type Cat implements Node { id: ID! lives: Int }
 union Pet = Dog | Cat
 type Query { me: User node(id: ID!): Node search(text: String!, filter: Filter): [Pet] colors: [Color!]! }
 type Mutation { rename(id: ID!, name: String!): User }
-"#;
+"#
+);
 
 pub const SCHEMAS: &[&str] = &[
     "type Query { a: Int b: [B!] } type B implements I { x: String } interface I { x: String } union U = B enum E { P Q } input In { f: Int = 3 }",
@@ -68,6 +76,9 @@ pub const OPS: &[&str] = &[
     "subscription { x } query { __schema { types { name } } __type(name: \"User\") { fields { name } } }",
     "query A { ...F } query B { ...F } fragment F on Query { x: me { id } x: colors y: node(id: 1) { id } y: node(id: 2) { id } }",
 ];
+
+/// indices into OPS of operations that do not validate against the shared schema
+pub const INVALID_OPS: &[usize] = &[3, 4, 5, 6, 8];
 
 // Inputs on which `Type::parse` panics ("!", "") or silently ignores trailing input ("Int!!",
 // "[A!]! extra") are left out on purpose: those are C01/C07 matters (not simulation targets),
@@ -98,6 +109,10 @@ pub enum Task {
     LineCol(usize),
     /// implementers map, subtype checks and meta-field lookups on the shared schema or a local one
     ImplMap(usize),
+    /// two invalid operations validated against the shared schema, their diagnostic lists merged
+    /// (both ways, with one of the documents already dropped): the merged report is sorted by
+    /// (file id, offset), i.e. the file parsed first comes first
+    Merge(usize, usize),
     /// an operation executed against the shared schema (`resolvers::Execution`, sync or async
     /// under the single-task simulator) with a seeded resolver world that includes faults
     Exec(usize, u64),
@@ -140,6 +155,7 @@ impl Task {
             Task::Path(i, p) => format!("path:{i}:{p}"),
             Task::Derive(k) => format!("derive:{k}"),
             Task::Exec(i, w) => format!("exec:{i}:{w}"),
+            Task::Merge(a, b) => format!("merge:{a}:{b}"),
         }
     }
     fn from_s(s: &str) -> Option<Task> {
@@ -162,6 +178,7 @@ impl Task {
             ["path", i, p] => Task::Path(i.parse().ok()?, p.parse().ok()?),
             ["derive", k] => Task::Derive(k.parse().ok()?),
             ["exec", i, w] => Task::Exec(i.parse().ok()?, w.parse().ok()?),
+            ["merge", a, b] => Task::Merge(a.parse().ok()?, b.parse().ok()?),
             _ => return None,
         })
     }
@@ -178,6 +195,7 @@ impl Task {
                 | Task::ImplMap(_)
                 | Task::Derive(_)
                 | Task::Exec(..)
+                | Task::Merge(..)
         )
     }
 }
@@ -294,11 +312,13 @@ pub fn gen_case(run_seed: u64, tier: Tier, force_cold: Option<bool>) -> Case {
                     9 => Task::Introspect,
                     10 => Task::Multi(wl.usize(SCHEMAS.len()), wl.usize(SCHEMAS.len())),
                     _ => {
-                        let k = wl.below(12);
-                        if k >= 10 {
+                        let k = wl.below(13);
+                        if k == 12 {
+                            Task::Merge(wl.usize(INVALID_OPS.len()), wl.usize(INVALID_OPS.len()))
+                        } else if k >= 10 {
                             Task::Exec(wl.usize(4), wl.below(1 << 20))
                         } else if k == 9 {
-                            Task::Derive(wl.usize(4))
+                            Task::Derive(wl.usize(8))
                         } else if k == 8 {
                             Task::Path(wl.usize(OPS.len().max(SCHEMAS.len())), wl.usize(PATHS.len()))
                         } else if k == 7 {
@@ -421,6 +441,56 @@ fn run_task(task: &Task, shared: Option<&Arc<Valid<Schema>>>, shared_ids: &BTree
             output: pipeline::ast_bundle(OPS[*i], "ast.graphql"),
             ids: vec![],
         },
+        Task::Merge(a, b) => {
+            use apollo_compiler::diagnostic::ToCliReport as _;
+            let schema = shared.expect("shared schema");
+            let mut out = String::new();
+            let mut ids = vec![];
+            let mut lists = vec![];
+            // both documents are parsed (and get their ids) before anything is validated
+            let docs: Vec<_> = [(*a, "merge_one.graphql"), (*b, "merge_two.graphql")]
+                .into_iter()
+                .map(|(i, path)| {
+                    let text = OPS[INVALID_OPS[i % INVALID_OPS.len()]];
+                    match ExecutableDocument::parse(schema, text, path) {
+                        Ok(d) => d,
+                        Err(e) => e.partial,
+                    }
+                })
+                .collect();
+            for d in docs {
+                ids.extend(source_ids(&d.sources, shared_ids));
+                match d.validate(schema) {
+                    Ok(_) => out.push_str("unexpectedly valid\n"),
+                    Err(e) => lists.push((e.errors, Some(e.partial))),
+                }
+            }
+            if lists.len() == 2 {
+                let (second, second_doc) = lists.pop().unwrap();
+                let (first, _first_doc) = lists.pop().unwrap();
+                // the second document is gone by the time the lists are merged, the first is not
+                drop(second_doc);
+                for which in 0..2 {
+                    let (mut into, from) = if which == 0 {
+                        (first.clone(), second.clone())
+                    } else {
+                        (second.clone(), first.clone())
+                    };
+                    into.merge(from);
+                    let keys: Vec<(u64, usize)> = into
+                        .iter()
+                        .filter_map(|d| d.error.location())
+                        .map(|l| (l.file_id().__verif_raw(), l.offset()))
+                        .collect();
+                    let monotone = ids.windows(2).all(|w| w[0] < w[1]);
+                    if monotone && keys.windows(2).any(|w| w[0] > w[1]) {
+                        let _ = writeln!(out, "MERGED REPORT NOT SORTED BY (file id, offset): {keys:?}");
+                    }
+                    let _ = writeln!(out, "merged {which}: {}", pipeline::diag_bundle(&into));
+                }
+            }
+            TaskResult { output: out, ids }
+        }
         Task::Exec(i, w) => {
             let schema = shared.expect("shared schema");
             let text = OPS[*i % OPS.len()];
@@ -476,6 +546,7 @@ fn run_task(task: &Task, shared: Option<&Arc<Valid<Schema>>>, shared_ids: &BTree
             use apollo_compiler::schema::ExtendedType;
             let base = shared.expect("shared schema");
             let mut schema: Schema = Schema::clone(base);
+            let k = &(*k);
             let iface = if k % 2 == 0 { name!("Node") } else { name!("Named") };
             let mut obj = apollo_compiler::schema::ObjectType {
                 description: None,
@@ -499,14 +570,47 @@ fn run_task(task: &Task, shared: Option<&Arc<Valid<Schema>>>, shared_ids: &BTree
             obj.fields.insert(name!("name"), field(name!("name"), apollo_compiler::ty!(String)).into());
             obj.fields.insert(name!("wings"), field(name!("wings"), apollo_compiler::ty!(Int)).into());
             schema.types.insert(name!("Bird"), ExtendedType::Object(obj.into()));
-            if k / 2 == 1 {
+            if (k / 2) % 2 == 1 {
                 if let Some(ExtendedType::Union(u)) = schema.types.get_mut("Pet") {
                     u.make_mut().members.insert(name!("Bird").into());
                 }
             }
             let mut out = String::new();
-            match schema.validate() {
+            // k >= 4: the caller vouches for the modified schema instead of re-validating it
+            let validated = if *k >= 4 {
+                Ok(Valid::assume_valid(schema))
+            } else {
+                schema.validate()
+            };
+            // the same schema built from text, for comparison: whatever the shared schema has
+            // cached about itself must not show in the derived one
+            let scratch_text = format!(
+                "{SHARED_SCHEMA}\ntype Bird implements Node{} {{ id: ID! name: String wings: Int }}\n{}",
+                if k % 2 == 1 { " & Named" } else { "" },
+                if (k / 2) % 2 == 1 { "extend union Pet = Bird\n" } else { "" }
+            );
+            match validated {
                 Ok(valid) => {
+                    if let Ok(scratch) = Schema::parse_and_validate(&scratch_text, "shared.graphql") {
+                        let op = "{ node(id: 1) { ... on Bird { wings } ... on Named { name ... on Bird { id } } } me { pet { ... on Bird { wings } } } search(text: \"x\") { ... on Bird { id } } }";
+                        let a = (pipeline::exec_bundle(&valid, op, "derived_op.graphql"), pipeline::introspection_bundle(&valid));
+                        let b = (pipeline::exec_bundle(&scratch, op, "derived_op.graphql"), pipeline::introspection_bundle(&scratch));
+                        if a != b {
+                            let (x, y) = if a.0 != b.0 { (&a.0, &b.0) } else { (&a.1, &b.1) };
+                            let at = x.bytes().zip(y.bytes()).position(|(p, q)| p != q).unwrap_or(x.len().min(y.len()));
+                            let cut = |t: &str| -> String {
+                                let lo = at.saturating_sub(60);
+                                let hi = (at + 60).min(t.len());
+                                String::from_utf8_lossy(&t.as_bytes()[lo.min(hi)..hi]).replace('\n', " ")
+                            };
+                            let _ = writeln!(
+                                out,
+                                "DERIVED SCHEMA BEHAVES UNLIKE THE SAME SCHEMA BUILT FROM TEXT at byte {at}: `{}` vs `{}`",
+                                cut(x),
+                                cut(y)
+                            );
+                        }
+                    }
                     let _ = writeln!(out, "DERIVED OK");
                     let op = "{ node(id: 1) { ... on Bird { wings } ... on Named { name ... on Bird { id } } } me { pet { ... on Bird { wings } } } search(text: \"x\") { ... on Bird { id } } }";
                     out.push_str(&pipeline::exec_bundle(&valid, op, "derived_op.graphql"));
@@ -1082,6 +1186,12 @@ fn exec_case_inner(case: &Case) -> CaseResult {
                         viol("pack_roundtrip", r.output.clone());
                     }
                     continue;
+                }
+                if let Some(line) = r.output.lines().find(|l| l.starts_with("DERIVED SCHEMA BEHAVES UNLIKE")) {
+                    viol("derived_schema_differs_from_text_built", line.to_string());
+                }
+                if let Some(line) = r.output.lines().find(|l| l.starts_with("MERGED REPORT NOT SORTED")) {
+                    viol("merged_diagnostics_order", line.to_string());
                 }
                 if wrapped && (task.needs_shared() || matches!(task, Task::Multi(..) | Task::ExecBuilder(..))) {
                     // a document validated against the shared schema carries the schema's files in
